@@ -45,6 +45,22 @@ Split(segs) ==
        ELSE [ok |-> TRUE, addr |-> SubSeq(segs, 1, Len(segs) - 1), method |-> segs[Len(segs)]]
 
 ---------------------------------------------------------------------------
+(* Ways of reaching the service from the command line and the three read-only commands (beyond C20's statement;   *)
+(* the same client semantics underneath): `varlink [-R resolver | --activate CMD | --bridge CMD] info|help|call`. *)
+Forms == {"direct", "resolver", "activate", "bridge"}
+Commands == {"info", "help", "call"}
+\* known: the interface asked for is registered with the resolver / provided by the service
+Reach(form, known) == IF form = "resolver" /\ ~known THEN "not-found" ELSE "connected"
+CmdObserve(cmd, form, known) ==
+  IF Reach(form, known) = "not-found" THEN [exit |-> 1, out |-> "nothing", err |-> "not found"]
+  ELSE CASE cmd = "info" -> [exit |-> 0, out |-> "service-info", err |-> ""]
+         [] cmd = "help" -> IF known THEN [exit |-> 0, out |-> "formatted-description", err |-> ""]
+                                     ELSE [exit |-> 1, out |-> "nothing", err |-> "InvalidParameter"]
+         [] cmd = "call" -> IF known THEN [exit |-> 0, out |-> "reply", err |-> ""]
+                                     ELSE [exit |-> 1, out |-> "nothing", err |-> "InterfaceNotFound"]
+\* a command prints something on stdout exactly when it succeeds
+OutIffSuccess(cmd, form, known) == LET o == CmdObserve(cmd, form, known) IN (o.exit = 0) <=> (o.out # "nothing")
+
 ExitZeroIffAllGood(script, more) ==
   LET o == Observe(script, more) IN
   (o.exit = 0) <=> (o.err = "" /\ \A k \in 1..Len(o.out) : script[o.out[k]].err = "")
